@@ -86,12 +86,21 @@ let nest_trace (selective: bool) (kind: string) (scripts: step list list) (ops: 
       | HSelf -> Some HSelf
       | HOf (l, k) -> let l = int_of_nat l in if inner_of l = c then Some (HOf (nat_of_int (l - base c), k)) else None) stp.fires } in
   let leaves c = List.map (List.map (localise c)) (if c = 0 then List.filteri (fun i _ -> i < half) scripts else List.filteri (fun i _ -> i >= half) scripts) in
-  let streams = (kind = "nest_mm" || kind = "nest_gm") in
-  let run_level scs hist = if streams then tr (merge_world selective scs hist) else tr (join_world selective false false scs hist) in
+  let streams = (kind = "nest_mm" || kind = "nest_gm" || kind = "nest_cm" || kind = "nest_zm") in
+  (* inner level: Vec join, Vec merge, or (nest_jr) Vec race, which hands its caller's waker straight to its children *)
+  let run_level scs hist =
+    if kind = "nest_jr" then tr (race_world scs hist)
+    else if streams then tr (merge_world selective scs hist) else tr (join_world selective false false scs hist) in
+  (* does the outer level hand its caller's waker straight to the inner combinators?  (always in the alloc build; race and chain in every build) *)
+  let outer_passes = (not selective) || kind = "nest_rj" || kind = "nest_cm" in
   (* the outer level of nest_jt is the two-argument trait method a.join(b): the tuple algorithm; of nest_gj / nest_gm a group into which the two
      inner combinators were inserted at construction (a member's script is handed over at its insert) *)
   let run_outer scs hist =
     if kind = "nest_jt" then tr (join_world selective false true scs hist)
+    else if kind = "nest_jr" then tr (join_world selective false false scs hist)
+    else if kind = "nest_rj" then tr (race_world scs hist)
+    else if kind = "nest_cm" then tr (chain_world scs hist)
+    else if kind = "nest_zm" then tr (zip_world selective scs hist)
     else if kind = "nest_gj" || kind = "nest_gm" then
       tr (group_world selective streams O (List.map (fun sc -> OMut (O, O, sc)) scs @ hist))
     else run_level scs hist in
@@ -103,12 +112,13 @@ let nest_trace (selective: bool) (kind: string) (scripts: step list list) (ops: 
   let to_ans o = (match o with OVals _ | OOk _ -> AReady (ROk O) | OErr e -> AReady (RErr e) | OSome (_, v :: _) -> AItem v | OSome (_, []) -> AItem O | ONone -> AEnd | OErrs _ -> AReady (RErr O)) in
   (* the outer model's reaction to one wake-up of the waker child c holds: a fire operation between polls *)
   let outer_fire c =
-    if selective then begin
+    if not outer_passes then begin
     ohist := !ohist @ [OFire (nat_of_int c, O)];
     let t = run_outer [oscs.(0); oscs.(1)] !ohist in
     let d = drop_n !otr t in otr := List.length t;
     List.iter (fun e -> match e with EW p -> emit (Printf.sprintf "W%d" (int_of_nat p)) | _ -> ()) d end in
   let results = ref [] in
+  let first_leaf = [| -1; -1 |] and winner = ref 0 in
   let npolls = Array.make (max nleaf 1) 0 in       (* how often each leaf has been polled: which step of its script is next *)
   let dropped = ref false in
   let ended = ref false in       (* a group is never finished for the model (it can be refilled); the harness stops polling a nest that returned None *)
@@ -137,7 +147,7 @@ let nest_trace (selective: bool) (kind: string) (scripts: step list list) (ops: 
              | Some c ->
                  (* selective: the inner combinator is always handed the same sub-waker of the outer one; otherwise it is handed the caller's waker,
                     which is new to it unless it is the one of its own last poll *)
-                 let pop = if selective then (if ipolled.(c) then OPollSame else OPollFresh)
+                 let pop = if not outer_passes then (if ipolled.(c) then OPollSame else OPollFresh)
                            else (if ipolled.(c) && last_opid.(c) = opid then OPollSame else OPollFresh) in
                  ihist.(c) <- ihist.(c) @ [pop];
                  let t = run_level (leaves c) ihist.(c) in
@@ -154,7 +164,7 @@ let nest_trace (selective: bool) (kind: string) (scripts: step list list) (ops: 
                    let db = drop_n itr.(b) tb in itr.(b) <- List.length tb;
                    List.iter (fun e -> match e with
                      | EF (j, k) -> act (`Leaf (Printf.sprintf "f%d.%d" (base b + int_of_nat j) (int_of_nat k)))
-                     | EW p when not selective -> act (`Leaf (Printf.sprintf "W%d" (tr_pid b p)))
+                     | EW p when outer_passes -> act (`Leaf (Printf.sprintf "W%d" (tr_pid b p)))
                      | EW _ -> act `Wake; fires := HOf (nat_of_int b, O) :: !fires
                      | _ -> ()) db in
                  let pending = ref [] and curj = ref (-1) in
@@ -171,21 +181,27 @@ let nest_trace (selective: bool) (kind: string) (scripts: step list list) (ops: 
                        curj := int_of_nat j;
                        pending := (match List.nth_opt (List.nth scripts l) npolls.(l) with Some st -> st.fires | None -> []);
                        npolls.(l) <- npolls.(l) + 1;
-                       act (`Leaf (match w with WSub _ -> Printf.sprintf "c%d:S%d" l l | WPar p -> Printf.sprintf "c%d:P%d" l (tr_pid c p)))
+                       (* what a leaf is handed: the inner combinator's sub-waker for it; or, below an inner race, what the race was handed - the
+                          caller's waker, or the outer combinator's sub-waker for the race, labelled by the first leaf that was ever handed it *)
+                       act (`Leaf (match w with
+                         | WSub _ -> Printf.sprintf "c%d:S%d" l l
+                         | WPar p when outer_passes -> Printf.sprintf "c%d:P%d" l (tr_pid c p)
+                         | WPar _ -> (if first_leaf.(c) < 0 then first_leaf.(c) <- l); Printf.sprintf "c%d:S%d" l first_leaf.(c)))
                    | EF (j, k) ->
                        let l2 = base c + int_of_nat j in
                        flush_until (fun h -> match h with
                          | HSelf -> int_of_nat j = !curj && int_of_nat k = npolls.(l2) - 1
                          | HOf (lg, kg) -> int_of_nat lg = l2 && kg = k);
                        act (`Leaf (Printf.sprintf "f%d.%d" l2 (int_of_nat k)))
-                   | EW p when not selective -> act (`Leaf (Printf.sprintf "W%d" (tr_pid c p)))
+                   | EW p when outer_passes -> act (`Leaf (Printf.sprintf "W%d" (tr_pid c p)))
                    | EW _ -> act `Wake; fires := HSelf :: !fires
                    | EAns a -> flush_until (fun _ -> false); act (`Leaf (show_ans a))
                    | EDc j -> act (`Leaf (Printf.sprintf "D%d" (base c + int_of_nat j)))
                    | EEndR r -> results := (c, r) :: !results
                    | _ -> ()) idelta;
                  let a = (match List.rev idelta with EEndR r :: _ -> to_ans r | EEndX :: _ -> APanic | _ -> APend) in
-                 let stp = { fires = (if selective then List.rev !fires else []); answer = a } in
+                 let stp = { fires = (if outer_passes then [] else List.rev !fires); answer = a } in
+                 (match a with AReady _ -> winner := c | _ -> ());
                  actions.(c) <- List.rev !acts;
                  known := !known @ [(c, stp)])
           done;
@@ -220,7 +236,7 @@ let nest_trace (selective: bool) (kind: string) (scripts: step list list) (ops: 
              | EEndR (OSome (_, vs)) :: r -> emit ("E:S[" ^ ints vs ^ "]"); walk r
              | EEndR _ :: r ->
                  let vals c = (match List.assoc_opt c !results with Some (OVals vs) -> vs | _ -> []) in
-                 emit ("E:R[" ^ ints (vals 0 @ vals 1) ^ "]"); walk r
+                 emit ("E:R[" ^ ints (if kind = "nest_rj" then vals !winner else vals 0 @ vals 1) ^ "]"); walk r
              | _ :: r -> walk r) in
           walk !final
         end
@@ -233,7 +249,7 @@ let nest_trace (selective: bool) (kind: string) (scripts: step list list) (ops: 
         List.iter (fun e -> match e with
           | EO -> emit "o"
           | EF (j, k) -> emit (Printf.sprintf "f%d.%d" (base c + int_of_nat j) (int_of_nat k))
-          | EW p when not selective -> emit (Printf.sprintf "W%d" (tr_pid c p))
+          | EW p when outer_passes -> emit (Printf.sprintf "W%d" (tr_pid c p))
           | EW _ -> outer_fire c
           | _ -> ()) d
     | ODrop -> emit "d"; dropped := true; ohist := !ohist @ [ODrop]; otr := List.length (run_outer [oscs.(0); oscs.(1)] !ohist);
@@ -270,12 +286,12 @@ let () =
           | "wait_stream" -> run_wait true scripts ops
           | "fgroup" | "fgroup_keyed" -> run_group selective false (nat_of_int n) ops
           | "sgroup" | "sgroup_keyed" -> run_group selective true (nat_of_int n) ops
-          | "nest_jj" | "nest_mm" | "nest_jt" | "nest_gj" | "nest_gm" -> []
+          | "nest_jj" | "nest_mm" | "nest_jt" | "nest_gj" | "nest_gm" | "nest_jr" | "nest_rj" | "nest_cm" | "nest_zm" -> []
           | _ -> failwith "comb" in
         (* the keys of members born through extend are not observable: their K tokens are printed as a bare `k` (the i-th EK belongs to the i-th insert) *)
         let nk = ref 0 in
         let toks = List.map (fun e -> match e with EK _ -> let i = !nk in incr nk; if Hashtbl.mem ext_born i then "k" else show_ev e | _ -> show_ev e) tr in
-        let toks = if List.mem comb ["nest_jj"; "nest_mm"; "nest_jt"; "nest_gj"; "nest_gm"] then nest_trace selective comb scripts ops else toks in
+        let toks = if List.mem comb ["nest_jj"; "nest_mm"; "nest_jt"; "nest_gj"; "nest_gm"; "nest_jr"; "nest_rj"; "nest_cm"; "nest_zm"] then nest_trace selective comb scripts ops else toks in
         print_endline (String.concat " " (id :: toks))
       | _ -> failwith "case"
     end
